@@ -11,7 +11,16 @@ value of a reference).  `none` = the operation raises and nothing is changed.
 
 What is *not* in the model: values and the dependency graph (that is `Exec`), object-valued
 references and their relative rebinding (`Kernels/Relative`), parametrised spaces
-(`Kernels/ItemSpace`), the order of members inside a container.
+(`Kernels/ItemSpace`), the order of members inside a container, `rename_space`, `UserSpace.copy`,
+`new_space(formula=...)`, `new_cells_from_module` / `reload`, documentation strings, and Python's own
+attribute protocol: a name that is an attribute of the interface class (`bases`, `cells`, `doc`, ...)
+never reaches `set_attr` / `del_attr` when it is assigned or deleted as an attribute; assigning to the
+name of a cells without parameters is a value assignment (`Exec`), not a reference edit.
+
+The model describes the code with the candidate repairs `notes/STRUCTX-candidate_*.diff` applied where
+the unchanged code violates C11/C12 (known findings, each with a witness in `corpus/`): references
+handed to `new_space(refs=...)` are checked like references set afterwards, and a cells that is named
+after its formula or automatically is checked under the name it gets.
 
 `Proofs/StructMech*.lean` prove that every accepted operation keeps the state equal to the
 derivation from scratch (`Struct.derive`, `Inv` below) – C03's "incremental maintenance always
@@ -50,6 +59,8 @@ def Space.set (s : Space) : Attr → Members → Space
 structure St where
   spaces : List Space := []
   globals : List String := []
+  /-- the `cellsnamer` of each space (`AutoNamer("Cells")`): the last postfix handed out; absent = 0 -/
+  namers : List (Path × Nat) := []
   deriving Repr
 
 /-! ## containers -/
@@ -143,11 +154,12 @@ inductive Kind | cells | space | ref
 def St.childNames (st : St) (p : Path) : List String :=
   st.spaces.filterMap (fun s => if s.id != [] && s.id.dropLast == p then s.id.getLast? else none)
 
-/-- what `name` is in the namespace of `p` (own members, child spaces, model-level references) -/
+/-- what `name` is in the namespace of `p`: the chain of maps is cells, references (own ones, then the
+model-level ones), child spaces - in this order (`Generated.namespaceOrder`, `C12.code_precedence`) -/
 def St.kindOf (st : St) (p : Path) (n : String) : Option Kind :=
   if (st.mem .cells p n).isSome then some .cells
-  else if (st.childNames p).contains n then some .space
   else if (st.mem .refs p n).isSome || st.globals.contains n then some .ref
+  else if (st.childNames p).contains n then some .space
   else none
 
 /-- `SpaceManager._can_add` -/
@@ -309,17 +321,24 @@ def St.removeBases (st : St) (p : Path) (bs : List Path) : Option St :=
 
 /-- `SpaceManager.new_ref` (value without identity).  `_find_name_in_subs(space, name)` starts with the
 space itself: with a model-level reference of the name it finds that one and is satisfied; without
-one, the first sub space that has the name in its namespace refuses.  In both cases every sub space
-is then checked for a cells or a child space of the name. -/
+one, the first sub space that has the name in its namespace refuses.  In both cases the space itself
+and every sub space is then checked for a cells or a child space of the name (the space itself:
+with a model-level reference of the name the namespace resolves the name to that reference although
+the space has a child space of the name). -/
+def St.newRefOk (st : St) (p : Path) (name : String) : Bool :=
+  if st.globals.contains name then
+    (p :: st.subs p).all (fun q => (st.mem .cells q name).isNone && !(st.childNames q).contains name)
+  else (p :: st.subs p).all (fun q => (st.kindOf q name).isNone)
+
 def St.newRef (st : St) (p : Path) (name : String) (v : Nat) : Option St :=
-  if !(if st.globals.contains name then
-         (st.subs p).all (fun q => (st.mem .cells q name).isNone && !(st.childNames q).contains name)
-       else (p :: st.subs p).all (fun q => (st.kindOf q name).isNone)) then none
+  if !st.newRefOk p name then none
   else
     let st1 := st.setMem .refs p name { derived := false, payload := v }
     some ((st1.subs p).foldl (fun s q => s.newMemberSub .refs p name v q) st1)
 
-/-- `UserSpaceImpl.set_attr` for a value that is not a modelx object -/
+/-- `UserSpaceImpl.set_attr` for a value that is not a modelx object.  (When `name` is a cells the code
+assigns a value if the cells has no parameters - not a structural edit, the driver is not asked - and
+raises otherwise.) -/
 def St.setRef (st : St) (p : Path) (name : String) (v : Nat) : Option St :=
   if !st.has p then none
   else if !Names.isValidName kw name then none
@@ -342,11 +361,65 @@ def St.setGlobal (st : St) (name : String) : Option St :=
 def St.delGlobal (st : St) (name : String) : Option St :=
   if st.globals.contains name then some { st with globals := st.globals.filter (· != name) } else none
 
+/-! ## the API calls that are more than one of the operations above -/
+
+/-- the references handed to the constructor of a space: each one as if it were set afterwards -/
+def St.setRefs (st : St) (p : Path) : List (String × Nat) → Option St
+  | [] => some st
+  | e :: rest =>
+    match st.setRef kw p e.1 e.2 with
+    | none => none
+    | some s => s.setRefs p rest
+
+/-- `new_space(name, bases, refs={...})`: nothing is created when one of the references cannot be
+(invalid name; the name of a cells the space derives) -/
+def St.newSpaceRefs (st : St) (parent : Path) (name : String) (bases : List Path)
+    (refs : List (String × Nat)) : Option St :=
+  match st.newSpace kw parent name bases with
+  | none => none
+  | some st1 => st1.setRefs kw (parent ++ [name]) refs
+
+def St.namerOf (st : St) (p : Path) : Nat :=
+  match st.namers.find? (fun e => e.1 == p) with
+  | some e => e.2
+  | none => 0
+
+def St.setNamer (st : St) (p : Path) (k : Nat) : St :=
+  { st with namers := st.namers.filter (fun e => e.1 != p) ++ [(p, k)] }
+
+/-- `AutoNamer.get_next`, repeated until the name can be added: the first postfix after `last` whose
+name neither the space nor a sub space uses for something else -/
+def St.autoFrom (st : St) (p : Path) : Nat → Nat → Nat
+  | 0, last => last + 1
+  | fuel + 1, last =>
+    if st.canAdd p (Names.cand "" "Cells" (last + 1)) .cells then last + 1
+    else st.autoFrom p fuel (last + 1)
+
+/-- more names than this cannot be in the way -/
+def St.nameCount (st : St) : Nat :=
+  (st.spaces.map (fun s => s.cells.length + s.refs.length + 1)).sum + st.globals.length
+
+def St.autoCells (st : St) (p : Path) : Nat := st.autoFrom p st.nameCount (st.namerOf p)
+
+/-- `new_cells(name, formula)`: the cells bears the name given if that is a valid name, otherwise the
+name of the formula if that is one (`fname`; anything else for a lambda or no formula), otherwise the
+next automatic name of the space (`CellsImpl.__init__`) -/
+def St.newCellsNamed (st : St) (p : Path) (name fname : String) (v : Nat) : Option St :=
+  if Names.isValidName kw name then st.newCells kw p name v
+  else if Names.isValidName kw fname then st.newCells kw p fname v
+  else
+    let k := st.autoCells p
+    (st.newCells kw p (Names.cand "" "Cells" k) v).map (fun s => s.setNamer p k)
+
+/-- deleting a space also forgets the automatic-name counters of the deleted spaces -/
+def St.delSpaceOp (st : St) (p : Path) : Option St :=
+  (st.delSpace p).map (fun s => { s with namers := s.namers.filter (fun e => !isPrefix p e.1) })
+
 /-- the whole step function of the driver -/
 inductive Op
-  | newSpace (parent : Path) (name : String) (bases : List Path)
+  | newSpace (parent : Path) (name : String) (bases : List Path) (refs : List (String × Nat))
   | delSpace (p : Path)
-  | newCells (p : Path) (name : String) (v : Nat)
+  | newCells (p : Path) (name fname : String) (v : Nat)
   | setFormula (p : Path) (name : String) (v : Nat)
   | delCells (p : Path) (name : String)
   | renameCells (p : Path) (old new : String)
@@ -359,9 +432,9 @@ inductive Op
   deriving Repr
 
 def St.apply (st : St) : Op → Option St
-  | .newSpace parent name bases => st.newSpace kw parent name bases
-  | .delSpace p => st.delSpace p
-  | .newCells p name v => st.newCells kw p name v
+  | .newSpace parent name bases refs => st.newSpaceRefs kw parent name bases refs
+  | .delSpace p => st.delSpaceOp p
+  | .newCells p name fname v => st.newCellsNamed kw p name fname v
   | .setFormula p name v => st.setFormula p name v
   | .delCells p name => st.delMember .cells p name
   | .renameCells p old new => st.renameCells kw p old new
